@@ -695,7 +695,7 @@ pub fn c17_zoo(cx: &SweepCtx, quick: bool, threads: usize) {
 // C07: text sweep (every text x storage state x index x operation)
 
 pub fn c07_text_sweep(cx: &SweepCtx, quick: bool, threads: usize) {
-    let mut texts_ = width_texts(if quick { 9 } else { INLINE + 2 });
+    let mut texts_ = width_texts(if quick { 12 } else { INLINE + 2 });
     if quick {
         for n in [INLINE - 1, INLINE, INLINE + 1] {
             for c in CHARS {
